@@ -56,6 +56,21 @@ CLAIMED = {
  "C16": claim("Coq proofs: check result = order-free validity for every permutation of the listing; validity and well-formedness invariants over every operation and history + generated directories",
     "Theorems: for every directory built from valid names and every permutation of its listing the check accepts iff every entry is <name>.user|.admin, no name has both and some admin file is supported; every operation keeps the store well-formed (no double files, empty work area) and, unless it removes/demotes the last administrator, valid - also over histories; init only on an empty directory and produces a valid store. Tie: ~800 generated directories (45 % valid) and histories with a check after every operation, compared with the model and an independent validity reading.",
     COMMON_NOTE + "The CLI gate (exit status when the check fails) is exercised in the thorough tier only.", "5/C16"),
+ "C04": claim("Coq statements fixing each frontend's mapping and limits + five-way differential run (saslauthd socket, basic-auth, API, LDAP over TCP, CLI binary) against store.Dir.Authenticate",
+    "Theorems (Frontends.v): within the transport's limits a frontend accepts iff the store accepts the delivered pair (for LDAP the name up to the first '@'); a store error is a denial; the pair is not altered. The frontends are thin, so the weight is in the tie: ~540 (user, password) pairs special in some transport through the real sasl client/server, the handler mux, an LDAP bind over TCP and the built binary, each compared with the store's own verdict.",
+    COMMON_NOTE + "HTTP, JSON, BER/LDAP, TLS and the command line are identity within the stated limits (invalid UTF-8 is outside JSON's, an empty argument means 'prompt').", "5/C04"),
+ "C12": claim("Coq proofs (upgradeable iff pid <> default; one upgrade step preserves password, flag, auxiliary data and others; authentication is read-only; upgrade never undoes: C11) + login sequences replayed on the agent model",
+    "Theorems: authentication reports upgradeable exactly when the record's parameter set differs from the default; an upgrade (update with the login password after a successful, upgradeable login of a supported record) succeeds, the same password then authenticates, the hash is no longer upgradeable, flag/aux data/others unchanged; authentication alone never changes the store. Tie: login sequences through the agent (interface and saslauthd callback) with upgrades local/off on mixed stores, waiting for quiescence, compared with handle_req ; handle_upgrade of the extracted agent configuration and judged by an upgrade monitor; remote mode against a master agent.",
+    COMMON_NOTE + "Remote mode is exercised, not modelled beyond the master's own update path. KDF premises as in C01.", "5/C12"),
+ "C17": claim("Coq proofs: condition parser = documented grammar (sound and complete), policy gate on every dispatcher write request + differential run with zxcvbn as oracle",
+    "Theorems: parse_condition accepts exactly the documented grammar (ASCII); unknown types / unparsable conditions stop the agent; score thresholds above 4 refused; a request whose password fails the policy changes nothing, notifies nothing, queues nothing (init, add, update, internal upgrade); a passing password gets exactly the store's result; a change implies the policy passed. Tie: ~600 condition strings, the three comparators against zxcvbn's own values, every write path (interface, web API by admin / user session / old password, init, local upgrade) around three policies with store snapshots.",
+    COMMON_NOTE + "zxcvbn is an oracle (its estimate is an input); conditions with non-ASCII white space and thresholds above 2^53 are outside the theorem's guard.", "5/C17"),
+ "C18": claim("Coq proofs: loader accepts exactly the well-formed trees, accepted sets never panic (library precondition model), reload all-or-nothing + generated YAML, child processes, SIGHUP",
+    "Theorems: from_config succeeds iff the tree is well-formed and returns exactly its base directory, default and sets; every accepted hasher satisfies the preconditions under which scrypt.Key / argon2.IDKey do not panic; configured r/p used with defaults 8/1; a reload yields the complete old or the complete new configuration, new only if it loads and passes the check. Tie: 500 generated / mutated YAML documents vs NewDirFromConfig and an independent well-formedness reading; accepted sets used for add+authenticate in child processes; reloads by SIGHUP under client load with a probe write.",
+    COMMON_NOTE + "YAML text parsing is outside the model; hasher_usable is a transcription of the libraries' argument checks.", "5/C18"),
+ "C19": claim("Coq proofs over the notify/timer loop (every event sequence) and the eligibility test + hooks run with a short rate limit and logging scripts",
+    "Theorems: loop invariant (armed iff pending); a notification runs the hooks at once or leaves the timer armed with more than one pending so that the next timer event runs them (every notification covered); at most two rounds per rate-limit interval; rounds use the store most recently announced; the set started is exactly the non-hidden executable regular files and symlinks of a directory that is not world-writable; the dispatcher notifies exactly after successful add/update/set-admin and every remove. Tie: notification patterns against HooksCaller.run (300 ms interval), generated hooks directories, the agent with failing/read-only/successful operations and a hanging hook.",
+    COMMON_NOTE + "Partial (runtime): process start, the one-minute kill and wall-clock jitter are observed, not modelled; patterns near a timer edge accept both interleavings.", "5/C19"),
  "C20": claim("Coq proofs over the model of the module's protocol logic + runs of the compiled module (stub headers, ASan/UBSan) against scripted servers",
     "Theorems: SUCCESS only if the server's first part begins with OK (and arrives within the timeout); the request on the wire is the saslauthd encoding of the clipped user and password, identical to the Go encoder's; unreachable, short, silent, negative replies never give SUCCESS; missing password; only the first part matters; reading a reply takes at most 2+256 bounded waits. Tie: pam_whawty.c from the working tree against scripted unix-socket servers (reply corpus cut at every byte, lying lengths, delays on both sides of the timeout, early close), PAM code and received request compared with the model.",
     COMMON_NOTE + "Partial (runtime): memory safety observed with sanitizers, not proved; libpam is replaced by stand-ins (harness/pam).", "5/C20"),
